@@ -2,8 +2,10 @@
 
 spec/SelectorsSem.tla   Eval: three-valued recursive definition over specifications (documentation)
 spec/Selectors.tla      Build (constructors) + call-stack machine + Filter.run; TLC: machine = Eval
+                        (results: True / False / class of the exception that reaches the caller)
 spec/GroupBySem.tla     Owner / Selected / Agree / SameGroup (the statement), Sig, Proj
-spec/GroupBy.tla        fill machine keyed by the selected sub-context; TLC: partition = SameGroup classes
+spec/GroupBy.tla        fill machine keyed by the selected sub-context; TLC: partition = SameGroup classes;
+                        NObj > 0: context objects shared between values and modified in place between fills
 spec/Trace_Selectors.tla, spec/Trace_GroupBy.tla   validation of recorded runs beyond the bounds
 """
 import concurrent.futures
@@ -16,7 +18,7 @@ from .. import core
 from .. import sellib as sl
 
 SEL_ACTIONS = ("FilterPull", "FilterEnd", "FilterDecide", "CallSelector", "CallAndOr", "CallLeaf",
-               "CallSelectContext", "RetSelector", "RetAndOr", "CatchExc", "Propagate")
+               "CallSelectContext", "CallPredicate", "RetSelector", "RetAndOr", "CatchExc", "Propagate")
 KEYS6 = ["", "a", "b", "a.b", "a.c", "a.b.c"]
 
 
@@ -40,9 +42,14 @@ class Worst(object):
 
 
 def mismatch_kind(exp, got):
-    if got.startswith("E:") and exp != "E":
-        return "raised %s" % got[2:]
-    return "expected %s observed %s" % (exp, got[:1])
+    """exp / got: "T", "F" or the name of the class of the exception that reaches the caller.
+    The kind does not name the expected class (one defect that swallows every exception is one kind; the
+    witness shows the class), "E" stands for it."""
+    if sl.is_exc(got) and not sl.is_exc(exp):
+        return "raised %s" % got
+    if sl.is_exc(got):
+        return "raised %s in place of the exception of the leaf" % got
+    return "expected %s observed %s" % ("E" if sl.is_exc(exp) else exp, got)
 
 
 def replay_vectors(ctx, recs, vals, worst):
@@ -65,7 +72,7 @@ def replay_vectors(ctx, recs, vals, worst):
                 if res[j] == "U":
                     continue           # a string leaf walks through a scalar here: contains is C08's subject
                 got = sl.evaluate(obj, v)
-                if got[:1] != res[j]:
+                if got != res[j]:
                     worst.add(mismatch_kind(res[j], got), (sl.size(ast), jkey(ast), j),
                               {"ast": ast, "value": repr(v), "expected": res[j], "observed": got,
                                "key_form": form, "explicit_raise_on_error": explicit})
@@ -131,7 +138,7 @@ def replay_filters(ctx, recs, worst):
             if rec["raised"]:
                 # the selector's exception reaches the caller (a Selector made from a raw specification has the
                 # default raise_on_error=True); what was yielded before it is exact
-                ok = got[:len(exp)] == exp and bool(raised)
+                ok = got[:len(exp)] == exp and raised == rec["exc"]
             else:
                 ok = got == exp and not raised
             # the values that pass are the filled objects themselves
@@ -140,7 +147,7 @@ def replay_filters(ctx, recs, worst):
                 kind = ("raised %s" % raised) if (raised and not rec["raised"]) else "Filter keeps other values"
                 worst.add(kind, (sl.size(ast), jkey(ast), len(flow)),
                           {"ast": ast, "flow": [repr(v) for v in flow], "expected": exp,
-                           "expected_raised": rec["raised"], "observed": got, "observed_raised": raised,
+                           "expected_raised": rec["exc"] or rec["raised"], "observed": got, "observed_raised": raised,
                            "where": "Filter.fill_into" if how == "fill" else "Filter.run"})
         ctx.case(["filter", ast, rec["flow"]], nontrivial=len(flow) > 0)
 
@@ -180,7 +187,8 @@ def record_selectors(ctx, rnd, n, worst):
         else:
             for v in vals[:2]:
                 got = sl.evaluate(obj, v)
-                trace.append({"op": "sel", "ast": ast, "val": sl.enc_val(v), "res": got[:1], "exc": got[2:]})
+                trace.append({"op": "sel", "ast": ast, "val": sl.enc_val(v), "res": got,
+                              "exc": got if sl.is_exc(got) else ""})
     return trace
 
 
@@ -382,45 +390,110 @@ def replay_classes(ctx, recs, rnd, worst):
         ctx.case(["groupby-classes", rec["G"], rec["M"], len(rec["W"])], nontrivial=True)
 
 
-def replay_flows(ctx, recs, worst):
-    """Behaviours of the GroupBy machine: fill / compute() / reset() in any order on one object."""
+def assign_in_place(dst, src):
+    """Make the dictionary *dst* equal to *src* by modifying it in place (nested dictionaries that stay
+    dictionaries are kept and modified in place too): what a source does that keeps one context object."""
+    for k in list(dst):
+        if k not in src:
+            del dst[k]
+    for k, v in src.items():
+        if isinstance(v, dict) and isinstance(dst.get(k), dict):
+            assign_in_place(dst[k], v)
+        else:
+            dst[k] = json.loads(json.dumps(v))
+    if list(dst) != list(src):             # the key order of the new content as well
+        items = [(k, dst[k]) for k in src]
+        dst.clear()
+        dst.update(items)
+
+
+def run_flow(G, M, style, items, shared=True):
+    """fill / compute() / reset() on one GroupBy object.  Fill items with o > 0 use the context object o
+    of the source, modified in place to hold the item's context (shared=False: a context object of its
+    own for every value - the control run).  Returns (groups, snapshots) as lists of lists of positions."""
+    objs = {}
+    snaps = []
+    gb = make_groupby(G, M, style)
+    for pos, it in enumerate(items):
+        if it["op"] == "fill":
+            c = sl.dec_ctx(it["c"])
+            if shared and it.get("o", 0) > 0:
+                if it["o"] in objs:
+                    assign_in_place(objs[it["o"]], c)
+                    c = objs[it["o"]]
+                else:
+                    objs[it["o"]] = c
+            gb.fill((pos + 1, c))
+        elif it["op"] == "compute":
+            snaps.append([[v[0] for v in g] for g in gb.compute()])
+        else:
+            gb.reset()
+    return [[v[0] for v in g] for g in gb.groups.values()], snaps
+
+
+def pair_mismatches(got, exp, open_pairs):
+    """Pairs of positions (i < j), not among the open ones, that the two partitions treat differently."""
+    gi = {p: k for k, g in enumerate(got) for p in g}
+    ei = {p: k for k, g in enumerate(exp) for p in g}
+    live = sorted(ei)
+    skip = set((a, b) for a, b in open_pairs)
+    return [(i, j, ei[i] == ei[j]) for n, j in enumerate(live) for i in live[:n]
+            if (i, j) not in skip and (gi[i] == gi[j]) != (ei[i] == ei[j])]
+
+
+def replay_flows(ctx, recs, worst, where="behaviour of the fill machine"):
+    """Behaviours of the GroupBy machine: fill / compute() / reset() in any order on one object, the
+    values bringing context objects of their own or sharing objects that the source modifies in place.
+    At every observation (compute(), the end) the implementation's partition is compared with the
+    machine's on every settled pair of values (see AliasingIrrelevant in GroupBy.tla)."""
     for rnum, rec in enumerate(recs):
         w = rec["W"][rnum % len(rec["W"])]          # one of the writings of the key sets
         G, M = w["g"], w["m"]
         items = rec["flow"]
         cs = {pos + 1: sl.dec_ctx(it["c"]) for pos, it in enumerate(items) if it["op"] == "fill"}
-        snaps = []
+        aliased = {pos + 1 for pos, it in enumerate(items) if it["op"] == "fill" and it.get("o", 0) > 0}
+        ops = [it["op"] if it["op"] != "fill" else ("fill" if not it.get("o") else "fill(object %d)" % it["o"]) for it in items]
         try:
-            gb = make_groupby(G, M, rnum % 4)
-            for pos, it in enumerate(items):
-                if it["op"] == "fill":
-                    gb.fill((pos + 1, cs[pos + 1]))
-                elif it["op"] == "compute":
-                    snaps.append(sorted([v[0] for v in g] for g in gb.compute()))
-                else:
-                    gb.reset()
-            groups = [list(g) for g in gb.groups.values()]
+            got, snaps = run_flow(G, M, rnum % 4, items)
         except Exception as exc:   # noqa
-            shape_problem(worst, "raised %s" % type(exc).__name__, G, M, {"exception": repr(exc)})
+            shape_problem(worst, "raised %s" % type(exc).__name__, G, M, {"exception": repr(exc), "operations": ops})
             continue
-        got = [[v[0] for v in g] for g in groups]
-        exp = sorted(list(g) for g in rec["groups"])
-        ops = [it["op"] for it in items]
-        if sorted(got) != exp:
-            if any(sorted(g) != g for g in got):
-                shape_problem(worst, "arrival order not preserved", G, M, {"a_group": next(g for g in got if sorted(g) != g)})
-            live = sorted(p for g in exp for p in g)
-            if sorted(p for g in got for p in g) != live:
-                shape_problem(worst, "groups do not hold exactly the values filled since the last reset()", G, M,
-                              {"operations": ops, "expected": exp, "observed": sorted(got)})
-            else:
-                gi = {p: k for k, g in enumerate(got) for p in g}
-                ei = {p: k for k, g in enumerate(exp) for p in g}
-                note_pairs(worst, G, M, [cs[p] for p in live], lambda i, j: gi[live[i]] == gi[live[j]],
-                           lambda i, j: ei[live[i]] == ei[live[j]], "behaviour of the fill machine")
-        if snaps != [sorted(list(g) for g in sn) for sn in rec["snaps"]]:
-            shape_problem(worst, "compute() does not yield the groups of the values filled so far", G, M,
-                          {"operations": ops, "expected": rec["snaps"], "observed": snaps})
+        observations = [(sn, e, o, "compute()") for sn, e, o in zip(snaps, rec["snaps"], rec["snapopen"])]
+        if len(snaps) != len(rec["snaps"]):
+            raise core.MachineryError("GroupBy flow export: number of compute() calls")
+        observations.append((got, rec["groups"], rec["open"], "groups"))
+        control = None
+        for obs, (g, e, opn, what) in enumerate(observations):
+            e = [list(x) for x in e]
+            if any(sorted(x) != x for x in g):
+                shape_problem(worst, "arrival order not preserved", G, M, {"a_group": next(x for x in g if sorted(x) != x)})
+            if sorted(p for x in g for p in x) != sorted(p for x in e for p in x):
+                shape_problem(worst, "groups do not hold exactly the values filled since the last reset()"
+                              if what == "groups" else "compute() does not yield the groups of the values filled so far",
+                              G, M, {"operations": ops, "expected": sorted(e), "observed": sorted(g)})
+                continue
+            bad = pair_mismatches(g, e, opn)
+            if not bad:
+                continue
+            # is the sharing of context objects needed to see it?  the same flow with a context object per value
+            if aliased and control is None:
+                try:
+                    cg, csn = run_flow(G, M, rnum % 4, items, shared=False)
+                    control = csn + [cg]
+                except Exception:   # noqa
+                    control = []
+            cbad = pair_mismatches(control[obs], e, []) if aliased and obs < len(control or []) else bad
+            for i, j, same in bad:
+                alias_only = bool(aliased) and (i, j, same) not in cbad
+                kind = "split" if same else "merged"
+                if alias_only:
+                    kind += " when a context object is shared between values and modified in place"
+                c1, c2 = sorted([cs[i], cs[j]], key=lambda c: (len(jkey(c)), jkey(c)))
+                size = (len(jkey(c1)) + len(jkey(c2)), len(G) + len(M), "%03d %s" % (len(items), jkey([G, M, c1, c2])))
+                worst.add(kind, size, {"group_by": [sl.dotted(p) for p in G], "merge": [sl.dotted(p) for p in M],
+                                       "context_1": c1, "context_2": c2, "where": where, "G": G, "M": M,
+                                       "operations": ops, "contexts_when_filled": [cs.get(p + 1) for p in range(len(items))],
+                                       "values": [i, j], "observed_at": what, "observed": sorted(g), "expected": sorted(e)})
         ctx.case(["groupby-flow", rec["G"], rec["M"], rec["flow"]], nontrivial=len(cs) > 1)
 
 
@@ -488,14 +561,22 @@ def record_groupby(ctx, rnd, n, worst):
                 else:
                     c[rnd.choice("abcd")] = rnd.choice([1, 2, {}, None, 0, ""])
             cs.append(c)
-        values = [(pos + 1, c) for pos, c in enumerate(cs)]
+        # in some runs the source keeps one or two context objects, modifies them in place and hands them
+        # on with several values; "now" is what the context of each value holds at the end
+        objs = [{} for _ in range(rnd.choice([0, 0, 1, 2]))]
+        values = []
         try:
-            for v in values:
-                gb.fill(v)
+            for pos, c in enumerate(cs):
+                if objs and rnd.random() < 0.6:
+                    o = rnd.choice(objs)
+                    assign_in_place(o, c)
+                    c = o
+                values.append((pos + 1, c))
+                gb.fill(values[-1])
         except Exception as exc:   # noqa
             shape_problem(worst, "raised %s" % type(exc).__name__, G, M, {"exception": repr(exc), "where": "random key sets"})
             continue
-        trace.append({"G": G, "M": M, "ctxs": [sl.enc_ctx(c) for c in cs],
+        trace.append({"G": G, "M": M, "ctxs": [sl.enc_ctx(c) for c in cs], "now": [sl.enc_ctx(v[1]) for v in values],
                       "groups": [[v[0] for v in grp] for grp in gb.groups.values()]})
     return trace
 
@@ -524,6 +605,7 @@ def check_gb_trace(ctx, trace, worst):
                 worst.add(kind, (10 ** 6 + len(jkey(cs)), jkey(r)),
                           {"G": r["G"], "M": r["M"], "group_by": [sl.dotted(p) for p in r["G"]],
                            "merge": [sl.dotted(p) for p in r["M"]], "contexts": cs, "groups": r["groups"],
+                           "contexts_at_the_end": [sl.dec_ctx(c) for c in r["now"]],
                            "where": "recorded run rejected by Trace_GroupBy", "index": a})
         if not found:
             raise core.MachineryError("Trace_GroupBy rejects record %d but none of its parts does" % acc)
@@ -539,6 +621,11 @@ def run(ctx):
                "before their last level (that case of contains belongs to C08)")
     ctx.assume("And/Or objects built with raise_on_error=False contain no ready-made item that can raise "
                "(the documentation does not say whether they must swallow its exception)")
+    ctx.assume("an exception that propagates out of a selector is the leaf's exception: its class is compared "
+               "(Exception subclasses only; StopIteration is not used)")
+    ctx.assume("when a source modifies a context object in place after a value was filled with it, the statement does not say "
+               "which content of that value's context counts: a pair of values is compared only when the contents at fill time "
+               "and at observation time give the same answer")
     # ---- all TLC jobs of the design level and of the export are independent: side by side
     pairs, rejected = accepted_pairs(ctx)
     if len(pairs) < 20:
@@ -548,15 +635,19 @@ def run(ctx):
     with open(gmfile, "w") as f:
         json.dump(pairs, f)
     genv = {"GM_FILE": gmfile}
-    pool = concurrent.futures.ThreadPoolExecutor(max_workers=4 if ctx.thorough else 7)
+    pool = concurrent.futures.ThreadPoolExecutor(max_workers=4 if ctx.thorough else 9)
     mcs = [pool.submit(ctx.mc, "Selectors", "Selectors_%s.cfg" % tag, coverage=True, must_cover=SEL_ACTIONS),
            pool.submit(ctx.mc, "GroupBy", "GroupBy_%s.cfg" % tag, coverage=True,
                        must_cover=("FillOld", "FillNew", "Compute", "Reset") if not ctx.thorough else ("FillOld", "FillNew")),
-           pool.submit(ctx.mc, "GroupBy", "GroupBy_rel_%s.cfg" % tag)]
+           pool.submit(ctx.mc, "GroupBy", "GroupBy_rel_%s.cfg" % tag),
+           # context objects shared between values and modified in place between fills
+           pool.submit(ctx.mc, "GroupBy", "GroupBy_alias_%s.cfg" % tag, coverage=True,
+                       must_cover=("FillOld", "FillNew", "Compute", "Reset"))]
     f_recs = pool.submit(ctx.export, "Selectors", "Selectors_%s_export.cfg" % tag, min_records=1000)
     f_frecs = pool.submit(ctx.export, "Selectors", "Selectors_filter_%s_export.cfg" % tag, min_records=500)
     f_crecs = pool.submit(ctx.export, "GroupBy", "GroupBy_%s_export.cfg" % tag, env=genv, min_records=len(pairs))
     f_flrecs = pool.submit(ctx.export, "GroupBy", "GroupBy_flow_%s_export.cfg" % tag, env=genv, min_records=1000)
+    f_alrecs = pool.submit(ctx.export, "GroupBy", "GroupBy_alias_%s_export.cfg" % tag, env=genv, min_records=1000)
     if ctx.thorough:
         mcs += [pool.submit(ctx.mc, "Selectors", "Selectors_filter_thorough.cfg", coverage=True,
                             must_cover=("FilterPull", "FilterEnd", "FilterDecide", "Again")),
@@ -565,6 +656,7 @@ def run(ctx):
                             must_cover=("FillOld", "FillNew", "Compute", "Reset"))]
         f_recs3 = pool.submit(ctx.export, "Selectors", "Selectors_thorough3_export.cfg", min_records=1000)
         f_crecs2 = pool.submit(ctx.export, "GroupBy", "GroupBy_thorough2_export.cfg", env=genv, min_records=len(pairs))
+        f_alrecs2 = pool.submit(ctx.export, "GroupBy", "GroupBy_alias_thorough2_export.cfg", env=genv, min_records=1000)
     # ---- spec -> code: selectors
     recs = f_recs.result()
     vals = next((r["vals"] for r in recs if r["vals"]), None)
@@ -588,6 +680,17 @@ def run(ctx):
     ctx.sample({"spec_behaviour_groupby": {k: crecs[len(crecs) // 2][k] for k in ("G", "M", "cls")}})
     flrecs = f_flrecs.result()
     replay_flows(ctx, flrecs, gworst)
+    alrecs = f_alrecs.result()
+    if not any(r["open"] for r in alrecs) or not any(len(r["flow"]) >= 3 and not r["open"] and
+                                                     any(it["o"] for it in r["flow"]) for r in alrecs):
+        raise core.MachineryError("GroupBy alias export: no behaviour with (without) unsettled pairs")
+    replay_flows(ctx, alrecs, gworst, where="behaviour of the fill machine, context objects shared between values")
+    if ctx.thorough:
+        # two shared objects, four contexts
+        replay_flows(ctx, f_alrecs2.result(), gworst,
+                     where="behaviour of the fill machine, context objects shared between values")
+    ctx.sample({"spec_behaviour_groupby_shared_context_object":
+                next(r for r in alrecs if len(r["flow"]) >= 3 and r["open"] and len(r["groups"]) >= 2)})
     for f in mcs:
         f.result()                      # a failed design-level run is a machinery error
     # ---- code -> spec
@@ -603,11 +706,12 @@ def run(ctx):
         g[1] = sorted(g[1] + [g[0].pop()])
         return dict(r, groups=[x for x in g if x])
     # the demonstrations use behaviours of the specification itself, so they do not depend on the tree under test
-    demo = [{"G": r["G"], "M": r["M"], "ctxs": [it["c"] for it in r["flow"]], "groups": r["groups"]}
+    demo = [{"G": r["G"], "M": r["M"], "ctxs": [it["c"] for it in r["flow"]], "now": [it["c"] for it in r["flow"]],
+             "groups": r["groups"]}
             for r in flrecs if all(it["op"] == "fill" for it in r["flow"]) and len(r["groups"]) >= 2][-30:]
     def demos():      # (one after the other: core.binding_demo uses one scratch file name)
         ctx.binding_demo("Trace_Selectors", "Trace_Selectors.cfg", sdemo,
-                         lambda r: dict(r, res={"T": "F", "F": "T", "E": "F"}[r["res"]]))
+                         lambda r: dict(r, res="T" if r["res"] == "F" else "F"))
         ctx.binding_demo("Trace_GroupBy", "Trace_GroupBy.cfg", demo, corrupt_groups)
     jobs = [pool.submit(demos),
             pool.submit(check_sel_trace, ctx, strace, worst),
@@ -620,10 +724,13 @@ def run(ctx):
     return ctx.finish(
         rule="S2C: every specification of the exported universe (depth <= 2 quick / <= 3 thorough over strings, classes, "
              "total and raising callables, lists, tuples, Selector/Not/And/Or/SelectContext objects, both "
-             "raise_on_error settings) on 28 values (context leaves: numbers, strings, None, False, empty and non-empty "
-             "lists / tuples, strings containing the tested level); every behaviour of the Filter machine; every key set accepted "
+             "raise_on_error settings; callables and SelectContext predicates raising each of twelve exception classes, "
+             "the class that reaches the caller compared) on 30 values (context leaves: numbers, strings, None, False, empty and "
+             "non-empty lists / tuples, strings containing the tested level); every behaviour of the Filter machine; every key set accepted "
              "by make_include_exclude_tree over {'', a, b, a.b, a.c, a.b.c}, written shortest key first and deepest key first "
              "(thorough: in every order), on one flow holding every context of the "
-             "universe (partition compared with the SameGroup classes) and every behaviour of the fill machine; "
+             "universe (partition compared with the SameGroup classes) and every behaviour of the fill machine, with a "
+             "context object per value and with context objects shared between values and modified in place by the source "
+             "(every settled pair of values compared at every compute() and at the end); "
              "C2S: seeded random deeper specifications / key sets validated by Trace_Selectors / Trace_GroupBy",
         exhaustive=True)
